@@ -11,4 +11,5 @@ _orm.define(globals(), "C33", ("C33",), "txn",
             "the pysqlite engine runs in the documented non-legacy mode (connect_args autocommit=False) so that SAVEPOINT is always inside a "
             "transaction; out-of-order use of nested transactions is not generated",
             weights={"begin_nested": 4, "sp_commit": 2, "sp_rollback": 4, "rollback": 3, "commit": 3, "delete": 3, "set": 6, "k_rename": 2,
-                     "flush": 6, "expunge": 0, "close": 0}, shape=_orm.txn_blocks)
+                     "flush": 6, "expunge": 0, "close": 0, "bulk": 1, "set_k": 2},
+            shape=_orm.txn_blocks, fault_fn=_orm.txn_faults)
